@@ -1,6 +1,7 @@
 import ErbiumModel.Util
 import ErbiumModel.Judge.C12
 import ErbiumModel.Judge.Pool
+import ErbiumModel.Judge.Dhcp
 /-! Line-protocol driver. stdin: `<suite> <input tokens> => <implementation observation>`;
     stdout: `<correspondence verdict> | <oracle verdict>` per line. -/
 open Erbium Util
@@ -12,6 +13,7 @@ def judge (suite : String) (inp obs : List String) : Verdict :=
   | "frame" => Judge.C12.judgeFrame inp obs
   | "bflag" => Judge.C12.judgeBflag inp obs
   | "pool" => Judge.Pool.judge inp obs
+  | "dhcp" => Judge.Dhcp.judge inp obs
   | _ => badInput ("unknown-suite:" ++ suite)
 
 def judgeLine (line : String) : String :=
